@@ -1467,27 +1467,29 @@ def attrs(
         if not frozen:
             builder.add_setattr()
 
-        nonlocal hash
+        # Use a local so that an auto-detected __hash__ on one class doesn't
+        # leak into later applications of the same decorator object.
+        hash_ = hash
         if (
-            hash is None
+            hash_ is None
             and auto_detect is True
             and _has_own_attribute(cls, "__hash__")
         ):
-            hash = False
+            hash_ = False
 
-        if hash is not True and hash is not False and hash is not None:
+        if hash_ is not True and hash_ is not False and hash_ is not None:
             # Can't use `hash in` because 1 == True for example.
             msg = "Invalid value for hash.  Must be True, False, or None."
             raise TypeError(msg)
 
-        if hash is False or (hash is None and eq is False) or is_exc:
+        if hash_ is False or (hash_ is None and eq is False) or is_exc:
             # Don't do anything. Should fall back to __object__'s __hash__
             # which is by id.
             if cache_hash:
                 msg = "Invalid value for cache_hash.  To use hash caching, hashing must be either explicitly or implicitly enabled."
                 raise TypeError(msg)
-        elif hash is True or (
-            hash is None and eq is True and is_frozen is True
+        elif hash_ is True or (
+            hash_ is None and eq is True and is_frozen is True
         ):
             # Build a __hash__ if told so, or if it's safe.
             builder.add_hash()
